@@ -336,6 +336,9 @@ func explainByQuirk(c *ShardCtx, g *peg.Grammar, in []byte, script map[int]*rtap
 		if q == peg.QLitFFFDEOF && !hasFFFDLit(g) {
 			continue
 		}
+		if q == peg.QMemo && (o == nil || !o.Memoize) {
+			continue // (the table model speaks about runs with Memoize only)
+		}
 		quirks = append(quirks, q)
 	}
 	try := func(qs []string) bool {
